@@ -175,6 +175,14 @@ nested under a condition on the previous connection — regenerated on every run
 session would still expire ("stays in its room" would fail). -/
 theorem C06_resume_clears_expiry : Generated.Hub.resumeClearsExpiry = true := by decide
 
+/-- Two assumptions of the queueing model about code it does not execute with failing sockets or cluster peers,
+regenerated on every run: the flush on resume hands every queued message to the function that queues again
+whatever cannot be written (nothing is removed from the queue before it is handed over), and a connection
+proxied from another server refuses a message once it is closed and never blocks — so the message is queued for
+the session (`C06_queue_or_write`) instead of vanishing into a dead connection. -/
+theorem C06_no_message_dropped_on_dead_connection :
+    Generated.Hub.flushHandsOverEveryMessage = true ∧ Generated.Hub.proxiedSendRefusesWhenClosed = true := by decide
+
 private def demo : List Op :=
   [.connect 1, .connect 2, .connect 3, .hello 1 0 .client "alice" false false, .hello 2 0 .client "bob" false false,
    .join 1 "room" "n1" (.ok none ""), .join 2 "room" "n2" (.ok none ""), .disconnect 2,
